@@ -5,6 +5,12 @@ import os
 import sys
 
 src = sys.argv[1] if len(sys.argv) > 1 else "/tmp/selfmut-results.jsonl"
+EQUIVALENT = {
+    "L12-diff-63-bits": "equivalent: a negative rhs - lhs is >= 2^63 in Goldilocks and a legitimate one is < 2^46",
+    "Q06-fee-ref-from-last-real": "equivalent: the fee relation forces every real inner to carry the reference fee",
+    "J01-escaped-state-root-unbounded": "equivalent through the only parse path: serde_json::from_str never calls visit_string (escaped strings arrive through visit_str from the scratch buffer)",
+    "J04-escaped-node-unbounded": "equivalent through the only parse path (same reason as J01)",
+}
 rows, first = {}, {}
 for l in open(src):
     d = json.loads(l)
@@ -21,6 +27,6 @@ for k in sorted(rows):
     d, f = rows[k], first[k]
     for c, r in d["results"].items():
         fv = f["results"].get(c, {}).get("verdict", "-")
-        out.append("| %s | %s | %s | %s | %s | %s |" % (k, os.path.basename(d["file"]), c, fv, r["verdict"], d.get("note", "")))
+        out.append("| %s | %s | %s | %s | %s | %s |" % (k, os.path.basename(d["file"]), c, fv, r["verdict"], EQUIVALENT.get(k, d.get("note", ""))))
 open(os.path.join(os.path.dirname(os.path.dirname(os.path.abspath(__file__))), "selfmut", "RESULTS.md"), "w").write("\n".join(out) + "\n")
 print(len(rows), "mutations")
